@@ -47,13 +47,13 @@ def gen_cases(ctx):
             yield dict(part='stack', stack=case['stack'], table=case['table'], request=case['request'])
     # --- client twins
     for case in c09.gen_cases(ctx):
-        if case['kind'] == 'sync':
+        if case.get('kind') == 'sync':
             yield dict(part='retry', cfg=case)
     for case in c19.gen_cases(ctx):
-        if case['kind'] == 'sync':
+        if case.get('kind') == 'sync':
             yield dict(part='tracer', cfg=case)
     for case in c08.gen_cases(ctx):
-        if case['kind'] == 'sync':
+        if case.get('kind') == 'sync':
             yield dict(part='match', case=case)
     for first in ('add', 'notify', 'getitem'):
         for second in ('add', 'dunder', 'proxy', 'getitem', 'notify', 'none'):
